@@ -201,11 +201,16 @@ func boxTypeFromBuf(buf []byte) boxType {
 // 24 bits -> Flags
 type flags uint32
 
+// errReadFlags is returned for a FullBox that is too short for its version and
+// flags. It is built once: a container may hold any number of such boxes (their
+// errors are logged and skipped), and a wrapped error records a stack trace.
+var errReadFlags = errors.Wrap(ErrBufLength, "readFlags")
+
 // readFlags reads the Flags from a FullBox header.
 func (b *box) readFlags() error {
 	buf, err := b.Peek(4)
 	if err != nil {
-		return errors.Wrap(ErrBufLength, "readFlags")
+		return errReadFlags
 	}
 	b.readFlagsFromBuf(buf)
 	_, err = b.Discard(4)
